@@ -54,6 +54,10 @@ def rule_o1(ctx: Ctx) -> None:
                             check_pruner_arg(ctx, cname, new, node)
                         else:
                             ctx.violation("C05-O1", fi, node, f"{cname}._pruner is called from {fi.qual}: the pruning loop may see an unsorted list")
+        calls_in_new = [n for n in walk_no_nested(new.node) if isinstance(n, ast.Call) and call_name(n) and call_name(n)[-1] == "_pruner"]
+        rets = [n for n in walk_no_nested(new.node) if isinstance(n, ast.Return) and n.value is not None and any(sub in calls_in_new for sub in ast.walk(n.value))]
+        if len(calls_in_new) != 1 or len(rets) != 1 or rets[0].value is not calls_in_new[0] or new.body[-1] is not rets[0]:
+            ctx.violation("C05-O1", new, new.node, f"{cname}.__new__ does not end by returning the pruned, sorted input (`return cls._pruner(sorted(...))`)")
         check_pruner_body(ctx, cname, pruner)
         # empty input
         first = new.body[0] if new.body else None
@@ -159,8 +163,11 @@ def check_pruner_body(ctx: Ctx, cname: str, pr: FuncInfo) -> None:
     ctx.ok("C05-O1", pr.where, f"single in-order pass; accept iff `{var}.avoids(*{acc})`; result = accepted list", loop, pr)
     # empty-pattern shortcut: sorted => the empty pattern, if present, is first
     first = pr.body[0]
-    if isinstance(first, ast.If) and unparse(first.test) == f"len({param}[0]) == 0":
-        ctx.ok("C05-O1", pr.where, "a basis containing the empty pattern collapses to it (first after sorting)", first, pr)
+    if isinstance(first, ast.If) and first is not loop.body[0]:
+        if unparse(first.test) == f"len({param}[0]) == 0" and len(first.body) == 1 and unparse(first.body[0]) == f"return tuple.__new__(cls, ({param}[0],))":
+            ctx.ok("C05-O1", pr.where, "a basis containing the empty pattern collapses to it (first after sorting)", first, pr)
+        else:
+            ctx.violation("C05-O1", pr, first, f"shortcut `if {unparse(first.test)}: {unparse(first.body[0])[:50]}` before the pruning loop: only 'the first (smallest) pattern is empty -> the basis is that pattern' is sound")
 
 
 def rule_o2(ctx: Ctx) -> None:
@@ -241,6 +248,11 @@ def rule_d1(ctx: Ctx) -> None:
         ctx.ok("C05-D1", new.where, "non-basis input is converted by from_iterable before the identity lookup", first, new)
     else:
         raise AnalysisError(f"{new.where}: dispatch on basis type not recognised")
+    imb = repo.need_method("MeshBasis", "is_mesh_basis")
+    ctx.run(check_skeleton, ctx, "C05-D1", imb, [
+        "if isinstance(a0, Perm):\n    return False\nif isinstance(a0, MeshPatt):\n    return True\nif isinstance(a0, Patt):\n    raise ValueError\nreturn any(isinstance(p, MeshPatt) for p in a0)",
+        "return any(isinstance(p, MeshPatt) for p in a0)",
+    ], "is_mesh_basis = some element is a mesh pattern (single patterns answered by their own kind)")
     for cname in ("Basis", "MeshBasis"):
         f = repo.need_method(cname, "from_iterable")
         ctx.run(check_skeleton, ctx, "C05-D1", f, ["return cls(*a0)", "return cls(*tuple(a0))"], f"{cname}.from_iterable = {cname}(*patts)")
@@ -268,6 +280,10 @@ def _variants():
         V("pruner-reversed-pass", replace_expr(BA, "Basis._pruner", "patts", "reversed(patts)", which=3), "fire-or-undecided", "C05-O1"),
         V("pruner-accept-contains", replace_expr(BA, "MeshBasis._pruner", "patt.avoids(*new_basis)", "patt.contains(*new_basis)"), "fire", "C05-O1"),
         V("pruner-against-input", replace_expr(BA, "Basis._pruner", "patt.avoids(*new_basis)", "patt.avoids(*patts)"), "fire-or-undecided", "C05-O1"),
+        V("pruner-shortcut-flipped", replace_expr(BA, "Basis._pruner", "len(patts[0]) == 0", "len(patts[0]) != 0"), "fire", "C05-O1"),
+        V("is-mesh-basis-all", replace_expr(BA, "MeshBasis.is_mesh_basis", "any((isinstance(patt, MeshPatt) for patt in basis))", "all((isinstance(patt, MeshPatt) for patt in basis))"), "fire", "C05-D1"),
+        V("is-mesh-basis-perm-true", replace_stmt(BA, "MeshBasis.is_mesh_basis", "return False", "return True"), "fire", "C05-D1"),
+        V("new-drops-return", replace_stmt(BA, "MeshBasis.__new__", "return cls._pruner(sorted((patt if isinstance(patt, MeshPatt) else MeshPatt(patt, []) for patt in patts)))", "cls._pruner(sorted((patt if isinstance(patt, MeshPatt) else MeshPatt(patt, []) for patt in patts)))\nreturn tuple.__new__(cls, patts)"), "fire", "C05-O1"),
         V("pruner-extra-caller", insert_stmt(BA, "Basis.from_iterable", "return cls(*patts)", "return cls._pruner(list(patts))", "before"), "fire", "C05-O1"),
         V("mesh-order-dynamic-guard", replace_expr(MP, "MeshPatt.__lt__", "isinstance(other, MeshPatt)", "isinstance(other, self.__class__)"), "fire", "C05-O2"),
         V("from-iterable-double-consume", replace_stmt(PS, "Av.from_iterable", "basis = tuple(basis)", ""), "fire", "C05-I1", "the original defect"),
